@@ -154,11 +154,18 @@ def units(cell):
     """the step given as a bare float in the preferred unit and as a quantity in ft / m / in / yd"""
     import py_ballisticcalc as pb
     from py_ballisticcalc import Unit
-    drv, form, R, frac = cell
+    drv, form, R, frac = cell[:4]
+    rform = cell[4] if len(cell) > 4 else 'Foot'
     spec = DRIVERS[drv]
     shot = make_shot(spec)
     calc = make_calc()
-    Rq = Unit.Foot(R)
+    if rform == 'bare':
+        Rq = Unit.Foot(R) >> pb.PreferredUnits.distance        # bare number in the preferred unit
+        R_pass = Rq
+        Rq = pb.PreferredUnits.distance(Rq)
+    else:
+        Rq = Unit[rform](Unit.Foot(R) >> Unit[rform])
+        R_pass = Rq
     R_eff = Rq >> Unit.Foot
     s_ft = R / frac
     if form == 'float':
@@ -170,10 +177,10 @@ def units(cell):
         step = stepq
     s_eff = stepq >> Unit.Foot
     try:
-        rows = calc.fire(shot, Rq, step).trajectory
+        rows = calc.fire(shot, R_pass, step).trajectory
     except pb.RangeError:
         return {'vac': True}
-    out = [{'msg': f'{drv} range {R} ft step {form} {s_eff!r} ft: {m}', 'key': None} for m in check_rows(rows, R_eff, s_eff, 0.0, 0.0, spec)]
+    out = [{'msg': f'{drv} range {R} ft ({rform}) step {form} {s_eff!r} ft: {m}', 'key': None} for m in check_rows(rows, R_eff, s_eff, 0.0, 0.0, spec)]
     return {'v': out[:3], 'n': 1, 'nt': cell, 'traces': 1, 'states': 1, 'transitions': 1}
 
 
@@ -275,6 +282,8 @@ def plan(tier):
     al = [[d, 'near', i] for d in DRIVERS for i in near] + [[d, 'far', i] for d in DRIVERS for i in far]
     un = [[d, form, R, frac] for d in ('nowind', 'tail20', 'quarter') for form in ('float', 'Foot', 'Meter', 'Inch', 'Yard')
           for R in (10.0, 30.0, 100.0, 300.0) for frac in (1, 2, 3, 4, 7, 10)]
+    un += [[d, form, R, frac, rform] for d in ('nowind', 'tail20') for form in ('float', 'Meter') for R in (10.0, 100.0, 300.0) for frac in (1, 3, 10)
+           for rform in ('bare', 'Meter', 'Yard', 'Inch')]
     sc = []
     ranges = [1.0, 10.0, 300.0, 3000.0] + ([5280.0, 10560.0] if tier == 'thorough' else [])
     for d in (DRIVERS if tier == 'thorough' else ('nowind', 'tail20', 'quarter', 'look20')):
